@@ -60,6 +60,21 @@ def _t6502():
     return t
 
 
+def _t65ce02():
+    """65CE02: the short page is the base page selected by ASSUME B:n; abs,Y loads/stores, JMP and JSR have no short form."""
+    t = _t6502()
+    t.name, t.cpu = "65ce02", "65ce02"
+    # (its conditional branches grow into a 16-bit relative form of their own: left to the plain 6502 target)
+    t.forms = {k: v for k, v in t.forms.items() if k not in t.short}
+    t.short = set()
+    t.forms.update({"lda.y": [([0xB9], "a16")], "sta.y": [([0x99], "a16")], "adc.y": [([0x79], "a16")], "ldx.y": [([0xB6], "z8"), ([0xBE], "a16")]})
+    t.alias = dict(t.alias, **{"lda.y": "lda", "sta.y": "sta", "adc.y": "adc", "ldx.y": "ldx"})
+    t.suffix = dict(t.suffix, **{"lda.y": ",y", "sta.y": ",y", "adc.y": ",y", "ldx.y": ",y"})
+    t.maxlen = dict(t.maxlen, **{"lda.y": 3, "sta.y": 3, "adc.y": 3, "ldx.y": 3})
+    t.assume = "b"
+    return t
+
+
 def _t6809():
     t = T()
     t.name, t.cpu, t.org, t.be, t.align = "6809", "6809", [0x10, 0xE0, 0x400, 0x8000], True, 1
@@ -141,7 +156,7 @@ def _t8086():
     return t
 
 
-TARGETS = {x.name: x for x in (_t6502(), _t6809(), _t6811(), _t68k(), _t8086())}
+TARGETS = {x.name: x for x in (_t6502(), _t65ce02(), _t6809(), _t6811(), _t68k(), _t8086())}
 FILL_LENS = [1, 2, 3, 5, 20, 100, 120, 124, 125, 126, 127, 128, 129, 130, 200, 250, 252, 253, 254, 255, 256, 257, 258, 300]
 BIG_FILL = [32700, 32760, 32764, 32766, 32768, 32770]
 
@@ -185,7 +200,7 @@ def gen_layout(rng, tname=None):
                 items.append(("dataref", rng.below(nlab), 4))
             else:
                 items.append(("align", rng.choice([2, 4, 16])))
-    if t.name == "6809" and rng.chance(0.5):
+    if t.name in ("6809", "65ce02") and rng.chance(0.5):
         # direct-page assumptions in mid-file: state that is set by a statement and must start afresh in every pass
         for _ in range(rng.randint(1, 3)):
             items.append(("assume", rng.choice([org >> 8, (org >> 8) + 1, 0, (org >> 8) + rng.below(3)]) & 0xFF))
@@ -262,13 +277,13 @@ def render(lay):
             else:
                 L.append("s%d:\n\t%s s%d" % (it[1], t.word, it[1]))
         elif k == "pcref":
-            L.append("\t%s %s" % (t.word, "*" if t.name in ("6502", "6809", "68hc11", "68000") else "$"))
+            L.append("\t%s %s" % (t.word, "*" if t.name in ("6502", "65ce02", "6809", "68hc11", "68000") else "$"))
         elif k == "bytes":
             L.append("\t%s %s" % (t.byte, ",".join(str(v) for v in it[1])))
         elif k == "align":
             L.append("\talign %d" % it[1])
         elif k == "assume":
-            L.append("\tassume dpr:%d" % it[1])
+            L.append("\tassume %s:%d" % (getattr(t, "assume", "dpr"), it[1]))
     # reference table of every label
     for i in range(lay["nlab"]):
         L.append("\t%s l%d" % (t.word, i))
